@@ -322,6 +322,37 @@ SUPPORT = 'src/nunavut/lang/py/support/nunavut_support.j2'
 SUPPORT_FUNCS = ['to_builtin', '_to_builtin_impl', 'update_from_builtin', 'get_class', 'get_model', 'get_attribute', 'set_attribute']
 
 
+SERVICE_J2 = 'src/nunavut/lang/py/templates/ServiceType.j2'
+
+
+def pin_c18model() -> typing.Tuple[bool, str]:
+    """`_MODEL_` (the law restore (filter_pickle m) = m of Gen/PyModelAttr.v is about exactly this shape): shape pin on
+    filter_pickle (pickle.dumps protocol 4 -> gzip.compress mtime=0 -> base64.b85encode -> decode -> strip -> 100-character
+    string literals joined by newlines), and a fail-closed text check of the two templates: `_MODEL_ = _restore_constant_(
+    {{ <type> | pickle | indent(8) }} )` for the data classes and the service class, and `_restore_constant_` =
+    pickle.loads(gzip.decompress(base64.b85decode(s))).  -> Generated/Gen_Pin_c18model.v"""
+    from . import shape_pin
+    ok, msg = shape_pin.check_pin('c18model', [(PY_INIT, 'filter_pickle')])
+    if not ok:
+        return ok, msg
+    out = os.path.join(gen.GEN_DIR, 'Gen_Pin_c18model.v')
+    base, svc = squash(gen.read_repo(BASE_J2)), squash(gen.read_repo(SERVICE_J2))
+    want = [
+        (base, r"_MODEL_: _pydsdl_\.\{\{ meta_type \}\} = _restore_constant_\( \{\{ type \| pickle \| indent\(8\) \}\} \) "
+               r"assert isinstance\(_MODEL_, _pydsdl_\.\{\{ meta_type \}\}\)", 'base.j2: _MODEL_ of the data classes'),
+        (base, r"def _restore_constant_\(encoded_string: str\) -> object: import pickle, gzip, base64 "
+               r"return pickle\.loads\(gzip\.decompress\(base64\.b85decode\(encoded_string\)\)\)", 'base.j2: _restore_constant_'),
+        (base, r"\{% set meta_type = type\.__class__\.__name__ -%\}", 'base.j2: meta_type'),
+        (svc, r"_MODEL_: _pydsdl_\.ServiceType = _restore_constant_\( \{\{ T \| pickle \| indent\(8\) \}\} \) "
+              r"assert isinstance\(_MODEL_, _pydsdl_\.ServiceType\)", 'ServiceType.j2: _MODEL_ of the service class'),
+    ]
+    for text, pat, what in want:
+        if not re.search(pat, text):
+            gen.write_if_changed(out, gen.HEADER % (BASE_J2 + ', ' + SERVICE_J2) + '(* %s not recognised: failed closed *)\n' % what)
+            return False, 'pin c18model failed closed: %s not recognised' % what
+    return True, 'ok'
+
+
 def pin_c18support() -> typing.Tuple[bool, str]:
     """shape pin (tools/translators/shape_pin.py) on the reflection / conversion functions of the support library that
     Gen/PyObj.v models by hand (tb, ufb, default_obj lookups): pins/c18support.txt, Generated/Gen_Pin_c18support.v"""
@@ -329,4 +360,4 @@ def pin_c18support() -> typing.Tuple[bool, str]:
     return shape_pin.check_pin('c18support', [(SUPPORT, f) for f in SUPPORT_FUNCS])
 
 
-GENERATORS = {'pyobj': gen_pyobj, 'pin_c18support': pin_c18support}
+GENERATORS = {'pyobj': gen_pyobj, 'pin_c18support': pin_c18support, 'pin_c18model': pin_c18model}
